@@ -55,11 +55,12 @@ type rnsListing struct {
 }
 
 type rnsWorld struct {
-	c     *chain.Chain
-	f     *chain.Fork
-	accs  []chain.Account
-	canon []string // canonical names "name.tld" in play
-	trace []string
+	c      *chain.Chain
+	f      *chain.Fork
+	accs   []chain.Account
+	canon  []string // canonical names "name.tld" in play
+	tiedUp bool     // a bidder with its money tied up in a standing bid changed that bid
+	trace  []string
 
 	listings map[string]rnsListing // lower(msg name) -> listing as observed at List time
 	escrow   map[string]sdk.Coins  // bidder+lower(name) -> escrowed and not yet returned
